@@ -39,7 +39,9 @@ where
         return;
     }
     let seed = ctx.stage_seed(stage);
-    let mut runner = TestRunner::new(config(cases, seed));
+    let mut cfg = config(cases, seed);
+    cfg.max_shrink_iters = ctx.max_shrink_iters;
+    let mut runner = TestRunner::new(cfg);
     let target: RefCell<Option<String>> = RefCell::new(None);
     // the first failing value as generated (reported if the shrunk one does not reproduce)
     let first: RefCell<Option<S::Value>> = RefCell::new(None);
